@@ -225,6 +225,9 @@ def fixed_coro_shapes():
         "match_break_in_loop": [while_(TRUE, [await_(A), match_(ref("v"), [(pint(2), [m(1), BREAK])], default=inc), m(2)]), m(3), await_(B), m(4)],
         "match_loop_in_case": [match_(ref("v"), [(pint(0), [while_(A, inc), m(1)])], default=[m(2)]), m(3), await_(B)] + inc,
         "for_chain_between_awaits": [await_(A), forchain([B, A], [pint(1), pint(2)], "o", elseval=pint(3)), await_(B), forchain([A], [pint(4)], "o")],
+        "always_across_states": [always_("al", bin_("and", A, B)), await_(A), assign("next", "p", ref("al")), await_(B), assign("next", "p", ref("al")), m(1)],
+        "always_then_first_await": [always_("al", un("inv", A)), await_(B), m(1), await_(ref("al")), m(2)],
+        "always_in_loop": [while_(TRUE, [always_("al", bin_("xor", A, B)), await_(ref("al")), m(1)] + inc)],
         "comment_first": [comment("start"), await_(A), m(1), await_(B), m(2)],
         "comment_stmt_await": [comment("start"), m(1), await_(A), m(2)],
         "comment_later": [await_(A), comment("mid"), m(1), await_(B), comment("end"), m(2)],
@@ -440,6 +443,10 @@ def fixed_seq_shapes():
         "for_break_chain": [forchain([A, B, idx(D, 0)], [pint(1), pint(2), pint(3)], "o")],
         "for_break_else": [forchain([B, A], [pint(5), pint(6)], "o", elseval=resize(D, 3)), assign("next", "q", D)],
         "for_break_variable": [forchain([A, B], [D, pint(1)], "v", mode="value", elseval=pint(0)), assign("next", "q", V)],
+        "always_expression": [always_("al", bin_("add", D, pint(1))), assign("next", "q", ref("al")), if_(A, [assign("next", "s", ref("al"))])],
+        "always_of_own_signal": [always_("al", bin_("xor", S, D)), assign("next", "s", D), assign("next", "q", ref("al"))],
+        "always_in_branch": [if_(A, [always_("al", bin_("and", D, S)), assign("next", "q", ref("al"))], [assign("next", "s", D)])],
+        "always_bit": [always_("al", bin_("and", A, idx(D, 1))), if_(ref("al"), [assign("push", "p", TRUE)]), assign("next", "s", D)],
         "elif_chain": [if_(A, [assign("next", "o", pint(1))], [if_(B, [assign("next", "o", pint(2))], [if_(bin_("eq", D, pint(3)), [assign("next", "o", pint(3))], [assign("next", "o", pint(4))])])])],
     }
 
